@@ -3,7 +3,8 @@ from .common import *
 
 PROP = 'C01'
 LEVEL = 'exploration'
-INVARIANTS = ('apply_conflict', 'apply_order', 'apply_skip', 'apply_tag_mismatch', 'state_mismatch', 'applied_not_committed')
+INVARIANTS = ('apply_conflict', 'apply_order', 'apply_skip', 'apply_tag_mismatch', 'state_mismatch', 'applied_not_committed',
+              'sent_entry_not_in_log')
 RULE = ('one case = one seeded execution of a 2-5 voter cluster (real SyncObj/TCPTransport/serializer over SimNet/SimFS) '
         'under a drawn swarm configuration (batch/chunk sizes, serializer placement memory|file|file+fork, batch mode, '
         'socket capacity, clock rates) with delays, fragmentation, resets, holds, partitions/heals, forced and automatic '
